@@ -546,6 +546,13 @@ def oracle_C04_text(case, o):
     if o[0] != 'ok': return ['no-output| expand(%r) -> %s %s' % (case['s'], o[0], o[1])]
     if case.get('kids'): return oracle_C04_kids(case, o)
     want = case['want'] if 'want' in case else decode(case['w'])
+    # the whole output of the template: the text is the content of ITS element and nothing else changes (what follows the text in the
+    # abbreviation is still abbreviation syntax)
+    full = {0: '<x>%s</x>', 1: '<x title="v">%s<em></em></x>', 2: '<ul><li>%s</li><li>%s</li></ul>', 3: '<p><b>%s</b><i></i></p>', 4: '<x class="c">%s<i></i></x><b></b>'}.get(case['tpl'])
+    if full and case['c'].get('options', {}).get('output.format') is False and 'syntax' not in case['c'] and '\n' not in want and '\r' not in want and 'want' not in case:
+        exp = full.replace('%s', want)
+        if mk.strip_fields(o[1]) != exp and o[1] != exp:
+            return ['text-whole| expand(%r) = %r, expected %r' % (case['s'], o[1], exp)]
     tag = ['x', 'x', 'li', 'b', 'x', 'x', 'br', 'x'][case['tpl']]
     got = first_text_after(o[1], tag)
     if got is not None and 'want' in case: got = mk.strip_fields(got)
@@ -586,6 +593,15 @@ def oracle_C04_wrap(case, o):
             return ['wrap| expand(%r, text=<%d lines>): output of %d characters differs from the expected one (%d characters, %d copies) at offset %d: %r vs %r'
                     % (case['s'], len(text), len(got), len(want), len(lines) if implicit else 1, i, got[max(0, i - 30):i + 30], want[max(0, i - 30):i + 30])]
         return ['wrap| expand(%r, text=%r) = %r, expected (modulo white space) %r' % (case['s'], text, outp, want)]
+    # the whole text, inserted once: every line of it is there, blank ones included (compared line by line modulo the indentation the
+    # formatter gives to the lines of a multi-line text)
+    if not implicit and case['c'].get('options', {}).get('output.format') is False:
+        tpl = {4: '<div><p>%s</p></div>', 5: '<x>%s</x>', 6: '<div><span></span><span>%s</span></div>', 7: '<tr><td></td></tr><b>%s</b>', 11: '<div><hr>%s</hr></div>'}[k]
+        pre, suf = tpl.split('%s')
+        if got.startswith(pre) and got.endswith(suf) and len(got) >= len(pre) + len(suf):
+            inner = got[len(pre):len(got) - len(suf)]
+            gl = [l.strip() for l in inner.strip().split('\n')]; wl = [l.strip() for l in norm(tx).strip().split('\n')]
+            if gl != wl: return ['wrap-lines| expand(%r, text=%r): the inserted text has the lines %r, the supplied text has %r' % (case['s'], text, gl, wl)]
     # "each containing that trimmed line": without formatting nothing but the trimmed line may stand inside the element, white space included
     if implicit and case['c'].get('options', {}).get('output.format') is False and got != want:
         return ['wrap-trim| expand(%r, text=%r) = %r, expected exactly %r' % (case['s'], text, outp, want)]
@@ -747,6 +763,9 @@ def cases_C14(tier, rnd):
                             out.append({'s': k + sfx, 'alt': v + sfx, 'c': c, 'g': 'applied'})
                         out.append({'s': k + '*2', 'alt': '(' + v + ')*2', 'c': c, 'g': 'applied'})
                     if CHAIN_DEF.match(v):
+                        if sy == 'html' and not rev:
+                            # the same alias below itself (no recursion: the inner use is a new use)
+                            out.append({'s': k + '>' + k + '>b', 'alt': v + '>(' + v + '>b)', 'c': c, 'g': 'alias-in-alias'})
                         out.append({'s': k + '>b', 'alt': v + '>b', 'c': c, 'g': 'children'})
                         out.append({'s': 'p>' + k + '>b+i', 'alt': 'p>(' + v + '>b+i)', 'c': c, 'g': 'children'})
     # multi-root and multi-level user definitions: what is written on the alias goes to EVERY top-level element, children into the
@@ -762,6 +781,8 @@ def cases_C14(tier, rnd):
             for sfx in ('.x.y', '.x.y.z', '#i.x[q=r].y'):
                 out.append({'s': k + sfx, 'alt': '+'.join(t + sfx for t in tops), 'c': c, 'g': 'multiroot'})
         out.append({'s': k + '>u', 'alt': v + '>u', 'c': c, 'g': 'deepest-last'})
+        out.append({'s': k + '>' + k + '>u', 'alt': v + '>(' + v + '>u)', 'c': c, 'g': 'alias-in-alias'})
+        out.append({'s': k + '>p+' + k + '>' + k, 'alt': v + '>(p+(' + v + '>(' + v + ')))', 'c': c, 'g': 'alias-in-alias'})
         out.append({'s': 'w>' + k + '>u+v', 'alt': 'w>(' + v + '>u+v)', 'c': c, 'g': 'deepest-last'})
     # a definition with text of its own: text written on the alias replaces it on every top-level element
     withtext = {'note': 'p.note{default text}', 'two2': 'h1{Title}+p', 'lbl': 'label{L}+input'}
